@@ -279,7 +279,7 @@ fn main() {
         rep.add_all(rs);
         rep.finish(0);
     }
-    let n = args.tier.pick(6000usize, 250_000usize);
+    let n = args.tier.pick(24_000usize, 250_000usize);
     let (seed, tier) = (args.seed, args.tier);
     let nd = n_directed();
     let rs = run_cases_isolated(n + nd, args.threads, |i| {
